@@ -56,6 +56,7 @@ func dkgScenarios(run *mon.Run, nQual, nJF int) []sim.Scenario {
 		return sc
 	}
 	out = append(out, dkgDirected(run)...)
+	out = append(out, dkgTwoByzantine(run)...)
 	for i := 0; i < nQual; i++ {
 		out = append(out, mk(sim.FVSSQ, i))
 	}
@@ -103,6 +104,58 @@ func dkgDirected(run *mon.Run) []sim.Scenario {
 								}
 							}
 						}
+					}
+				}
+			}
+		}
+	}
+	return out
+}
+
+// dkgTwoByzantine: Joint-Feldman with two cooperating Byzantine participants and a boundary count. B gets
+// itself disqualified as a dealer (in round 1 or in round 2) AND complains about D; D deals badly to exactly
+// t honest participants and answers their complaints correctly, so that D has exactly t+1 complainers
+// counting B - or exactly t without it. Whether a participant's standing as a dealer leaks into its role
+// as a complainer (or as an answering dealer) shows as a disagreement or as a missed disqualification.
+func dkgTwoByzantine(run *mon.Run) []sim.Scenario {
+	r := run.Rand("two-byzantine")
+	var out []sim.Scenario
+	bDisq := []string{ // how B loses its standing as a dealer
+		"vector=mangle:size-1", "vector=mangle:non-G2", "vector=drop", "vector=hold",
+		"share=drop;answer=mangle:share-plus1", "share=mangle:plus1;answer=drop", "share=drop;answer=pass;inj=empty-bcast@2",
+		"inj=second-vector-diff@1", "inj=unknown-tag@2", "vector=pass", // (the last: B stays qualified)
+	}
+	dShares := []string{"drop", "mangle:plus1", "subst"}
+	k := 0
+	for _, g := range [][2]int{{5, 2}, {6, 2}, {7, 3}, {7, 2}} {
+		n, t := g[0], g[1]
+		for _, bd := range bDisq {
+			for _, ds := range dShares {
+				for _, victims := range []int{t, t - 1} { // with B's complaint: t+1 (must be disqualified) or t complainers
+					k++
+					if run.Quick() && (k+int(run.Seed))%2 == 1 {
+						continue
+					}
+					p := r.Perm(n)
+					B, D := p[0], p[1]
+					honest := p[2:]
+					V := honest[len(honest)-1] // B's own victim (not one of D's)
+					var vs []string
+					for _, h := range honest[:victims] {
+						vs = append(vs, fmt.Sprint(h))
+					}
+					recB := fmt.Sprintf("victim=%d;%s;victim=%d;inj=complaint@2", V, bd, D)
+					if strings.Contains(bd, "inj=") { // keep both injections
+						recB = fmt.Sprintf("victim=%d;%s;victim=%d;inj=complaint@2", V, strings.Replace(bd, "inj=", "inj=complaint@2,", 1), D)
+						recB = fmt.Sprintf("victim=%d;inj=complaint@2;victim=%d;%s", D, V, bd)
+					}
+					recD := fmt.Sprintf("shares=%s@%s;answer=pass", ds, strings.Join(vs, "."))
+					byz, rec := []int{B, D}, recB+" || "+recD
+					if D < B {
+						byz, rec = []int{D, B}, recD+" || "+recB
+					}
+					for o := 0; o < run.Pick(2, 6); o++ { // delivery orders
+						out = append(out, sim.Scenario{Seed: uint64(run.Seed)<<32 ^ uint64(k*16+o)*0x9e3779b97f4a7c15 ^ 0x2b, Proto: sim.JF, N: n, T: t, Byz: byz, Recipe: rec})
 					}
 				}
 			}
